@@ -118,7 +118,7 @@ impl<const N: u32> PxE1<{ N }> {
             let mut frac64_b = (frac_b as u64) << 32;
 
             //This is 4kZ + expZ; (where kZ=k_a-kB and expZ=exp-expB)
-            shift_right = (shift_right << 2) + (exp as i16) - (exp_b as i16);
+            shift_right = (shift_right << 1) + (exp as i16) - (exp_b as i16);
 
             if shift_right == 0 {
                 frac64 += frac64_b;
@@ -197,7 +197,7 @@ impl<const N: u32> PxE1<{ N }> {
 
                 //n+1 frac bit is 1. Need to check if another bit is 1 too if not round to even
                 if bit_n_plus_one {
-                    if ((0x_FFFF_FFFF_FFFF_FFFF_u64 >> N) & frac64) != 0 {
+                    if ((0x_FFFF_FFFF_FFFF_FFFF_u64 >> (N + 1)) & frac64) != 0 {
                         bits_more = true;
                     }
                     u_z += (((u_z >> (32 - N)) & 1) | (bits_more as u32)) << (32 - N);
@@ -246,7 +246,7 @@ impl<const N: u32> PxE1<{ N }> {
             let mut frac64_b = (frac_b as u64) << 32;
 
             //This is 4kZ + expZ; (where kZ=kA-kB and expZ=exp-expB)
-            shift_right = (shift_right << 2) + (exp as i16) - (exp_b as i16);
+            shift_right = (shift_right << 1) + (exp as i16) - (exp_b as i16);
 
             if shift_right > 60 {
                 return Self::from_bits(if sign { ui_a.wrapping_neg() } else { ui_a });
@@ -320,7 +320,7 @@ impl<const N: u32> PxE1<{ N }> {
 
                 //n+1 frac bit is 1. Need to check if another bit is 1 too if not round to even
                 if bit_n_plus_one {
-                    if ((0x_FFFF_FFFF_FFFF_FFFF_u64 >> N) & frac64) != 0 {
+                    if ((0x_FFFF_FFFF_FFFF_FFFF_u64 >> (N + 1)) & frac64) != 0 {
                         bits_more = true;
                     }
                     u_z += (((u_z >> (32 - N)) & 1) | (bits_more as u32)) << (32 - N);
